@@ -286,3 +286,107 @@ def _mut_subscribe_wrong_term(fn):
             n.args[0].elts[0] = ast.BinOp(left=n.args[0].elts[0], op=ast.Sub(), right=ast.Constant(value=1))
             cnt += 1
     return cnt
+
+
+# ------------------------------------------------------------------------------------------ apply_command / apply_command_response
+def applyCommand_summary(I, selfv, args, kwargs):
+    """_applyCommand(command, callback, commandType=None): contract proved in unit applyCommand"""
+    I.ctx.ghost['submitted'] = I.ctx.glist('submitted') + [tuple(args)]
+    return None
+
+
+@unit(name='msg.apply_command', relpath=MOD, qual=[HANDLER], props=['C02', 'C18'], cases=[dict(with_id=True), dict(with_id=False)],
+      doc='a forwarded command is queued unchanged, with (sender, request id) as its callback when a reply is wanted')
+def msg_apply_command(ctx, with_id):
+    so = SO(ctx, UNIVERSE())
+    so.assume_inv()
+    node = peer(ctx, so)
+    cmd = CmdV(FreshInt('cmd'))
+    d = {'type': 'apply_command', 'command': cmd}
+    rid = FreshInt('requestId')
+    if with_id:
+        d['request_id'] = rid
+    old = so.snapshot()
+    reg = dict(SUMMARIES)
+    reg['SyncObj._applyCommand'] = applyCommand_summary
+    I = make_interp(ctx, so, registry=reg, inline=INL)
+    kind, v = run_method(I, so, HANDLER, [node, mk_msg(ctx, d)])
+    ctx.prove(kind == 'ok', 'C02:apply_command.no-exception', info=getattr(v, 'typ', None))
+    sub = ctx.glist('submitted')
+    ctx.prove(len(sub) == 1, 'C02:apply_command.queued-exactly-once')
+    if sub:
+        a = sub[0]
+        ctx.prove(a[0] is cmd, 'C02+C11:apply_command.command-unchanged')
+        if with_id:
+            ctx.prove(isinstance(a[1], tuple) and len(a[1]) == 2 and And(Eq(a[1][0], node), Eq(a[1][1], rid)), 'C02:apply_command.reply-route-recorded')
+        else:
+            ctx.prove(a[1] is None, 'C02:apply_command.no-reply-route')
+        ctx.prove(len(a) == 2 or a[2] is None, 'C02+C11:apply_command.no-second-type-byte')
+    for n, b in field_unchanged(old, so, ['raftLog', 'raftCommitIndex', 'raftCurrentTerm', 'raftState', 'votedForNodeId',
+                                          'commandsWaitingCommit', 'commandsWaitingReply']):
+        ctx.prove(b, 'C02+C03:apply_command.frame.%s' % n)
+
+
+@unit(name='msg.apply_command_response', relpath=MOD, qual=[HANDLER], props=['C02'],
+      cases=[dict(err=False), dict(err=True)],
+      doc='O2.5: the waiting callback is removed; an error reply fires it once with that error; a success reply moves it to the '
+          'commit subscribers of the reported index with the reported term',
+      assumptions=['A-PROTO-3: a success reply for index i reaches the submitter before it applies i (FIFO link from the leader)'],
+      canaries=[('keep-slot', lambda mod: mutate_function(mod, HANDLER, _mut_get_instead_of_pop), ['O2.5.slot-removed'])])
+def msg_apply_command_response(ctx, err):
+    so = SO(ctx, UNIVERSE())
+    so.assume_inv()
+    node = peer(ctx, so)
+    rid = FreshInt('requestId')
+    d = {'type': 'apply_command_response', 'request_id': rid}
+    code = FreshInt('errorCode')
+    idx, term = FreshInt('logIdx'), FreshInt('logTerm')
+    if err:
+        d['error'] = code
+        ctx.assume(And(code >= 1, code <= 6))
+    else:
+        d['log_idx'], d['log_term'] = idx, term
+        ctx.assume(idx > so.get('raftLastApplied'))
+    old = so.snapshot()
+    I = make_interp(ctx, so, registry=SUMMARIES, inline=INL)
+    kind, v = run_method(I, so, HANDLER, [node, mk_msg(ctx, d)])
+    ctx.prove(kind == 'ok', 'C02:O2.5.no-exception', info=getattr(v, 'typ', None))
+    if kind != 'ok':
+        return
+    slots0 = old.get('commandsWaitingReply').entries
+    slots1 = so.cell('commandsWaitingReply').entries
+    cbs = ctx.glist('cb')
+    subs = ctx.glist('wait_ops')
+    hit = [(p, i, cb) for p, i, cb in slots0]
+    was = Or(*[And(p, Eq(i, rid)) for p, i, cb in slots0])
+    ctx.prove(Not(Or(*[And(p, Eq(i, rid)) for p, i, cb in slots1])), 'C02:O2.5.slot-removed')
+    for p, i, cb in slots0:
+        still = Or(*[And(p1, Eq(i1, i)) for p1, i1, c1 in slots1 if c1 is cb])
+        ctx.prove(Implies(And(p, Not(Eq(i, rid))), still), 'C02:O2.5.other-slots-kept')
+    if ctx.decide(was, 'slot-present'):
+        if err:
+            ctx.prove(len(cbs) == 1 and len(subs) == 0, 'C02:O2.5.error-fires-once')
+            if cbs:
+                f, a = cbs[0]
+                ctx.prove(And(a[0] is None, Eq(a[1], code)), 'C02:O2.5.error-code-passed-through')
+                ctx.prove(Or(*[And(p, Eq(i, rid)) for p, i, cb in slots0 if cb.tag == f.tag]), 'C02:O2.5.right-callback')
+        else:
+            ctx.prove(len(cbs) == 0 and len(subs) == 1, 'C02:O2.5.success-defers-to-commit')
+            if subs:
+                _, sidx, (sterm, scb) = subs[0]
+                ctx.prove(And(Eq(sidx, idx), Eq(sterm, term)), 'C02:O2.5.subscribed-at-reported-index-and-term')
+                ctx.prove(Or(*[And(p, Eq(i, rid)) for p, i, cb in slots0 if cb.tag == scb.tag]), 'C02:O2.5.right-callback')
+    else:
+        ctx.prove(len(cbs) == 0 and len(subs) == 0, 'C02:O2.5.unknown-request-ignored')
+    for n, b in field_unchanged(old, so, ['raftLog', 'raftCommitIndex', 'raftCurrentTerm', 'raftState', 'votedForNodeId', 'raftLastApplied']):
+        ctx.prove(b, 'C02+C03:O2.5.frame.%s' % n)
+
+
+def _mut_get_instead_of_pop(fn):
+    cnt = 0
+    for n in ast.walk(fn):
+        if isinstance(n, ast.Call) and isinstance(n.func, ast.Attribute) and n.func.attr == 'pop' and \
+                isinstance(n.func.value, ast.Attribute) and n.func.value.attr == '__commandsWaitingReply':
+            n.func.attr = 'get'
+            cnt += 1
+    return cnt
